@@ -67,6 +67,10 @@ def capped_pool(log, cap):
     return CappedPool(log, demand=3.0, supply=4.0)
 
 
+#: a Buffer asked for values that differ in the last place only (ints beyond 2**53, floats
+#: one part in 10**10 apart): the target gets exactly the value written last
+CLOSE_WRITES = [("write", 2 ** 60 + 1), ("write", 2 ** 60), ("write", 1000.0000001),
+                ("write", 1000.0)]
 #: environment alphabet of the runs against a capped pool (LinearController)
 CAP_ACTIONS = [("cap", None), ("state", "down"), ("state", "up")]
 
@@ -493,11 +497,13 @@ def shard(args):
         return shard_stall(args)
     service, period, duration, init, depth, part, parts = args
     acc = Acc()
-    cap = None
-    if isinstance(init, tuple):
+    cap = actions = None
+    if isinstance(init, tuple) and init[0] == "close":
+        init, actions = init[1], CLOSE_WRITES
+    elif isinstance(init, tuple):
         init, cap = init
-    for index, history in enumerate(histories(service, period, duration, depth,
-                                              CAP_ACTIONS if cap is not None else None)):
+        actions = CAP_ACTIONS
+    for index, history in enumerate(histories(service, period, duration, depth, actions)):
         if index % parts != part:
             continue
         case = {"service": service, "period": period, "duration": duration, "init": init,
@@ -534,6 +540,10 @@ def run(ctx):
                     for part in range(parts):
                         shards.append((service, period, duration, init, use, part, parts))
     shards += [("stall", service, period) for service in SERVICES for period in PERIODS]
+    # a Buffer and values that are almost equal
+    shards += [("Buffer", period, duration, ("close", init), 2, 0, 1)
+               for period in PERIODS[:2] for duration in (1.5, 2.5)
+               for init in (2 ** 60, 1000.0)]
     # LinearController over a pool that limits the demand it takes on
     shards += [("LinearController", period, duration, ("up", 21.0), 2, part, 4)
                for period in PERIODS for duration in (3.5, 5.5, 7.5) for part in range(4)]
